@@ -187,8 +187,8 @@ var zzDepths = [10]int{1, 2, 3, 31, 62, 63, 65, 66, 67, 70}
 func zzH_C02_depth() {
 	unit := zzParam("unit")
 	impl := unit % 6
-	kind := (unit / 6) % 4
-	d := zzDepths[unit/24]
+	kind := (unit / 6) % 5
+	d := zzDepths[unit/30]
 	var b []byte
 	var t TType
 	switch kind {
@@ -215,6 +215,15 @@ func zzH_C02_depth() {
 			b = append(b, 3, 13, 0, 0, 0, 1, zzU8("key"))
 		}
 		b = append(b, 3, 3, 0, 0, 0, 0)
+	case 4: // map key nesting: map<map<...map<byte,byte>...,byte>,byte>
+		t = 13
+		for i := 0; i < d-1; i++ {
+			b = append(b, 13, 3, 0, 0, 0, 1)
+		}
+		b = append(b, 3, 3, 0, 0, 0, 0)
+		for i := 0; i < d-1; i++ {
+			b = append(b, zzU8("val"))
+		}
 	}
 	want := len(b)
 	enc := append(b, zzU8("trail"))
